@@ -51,10 +51,48 @@ def corpus_files(lang: str | None = None):
     return out
 
 
-def analyse(lang: str, text: str):
-    """scan_file on a text: [(name, start line, start col, end line, end col, length)]."""
-    from codelimit.common.lexer_utils import lex
-    from codelimit.common.Scanner import scan_file
+_SCR = None
 
-    ms = scan_file(lex(lexer_for(lang), text, False), language(lang))
+
+def _scratch() -> Path:
+    global _SCR
+    if _SCR is None:
+        import atexit
+        import shutil
+
+        from .common import scratch_dir
+
+        _SCR = scratch_dir("an")
+        atexit.register(shutil.rmtree, str(_SCR), True)
+    return _SCR
+
+
+def file_safe(text: str) -> bool:
+    """Does a file holding `text` read back as `text` (no newline translation, no decoding surprise)?"""
+    return "\r" not in text and text.isascii()
+
+
+def analyse(lang: str, text: str, via_file: bool = True):
+    """What the scanner reports for a file holding `text`: [(name, start line, start col, end line, end col, length)].
+    The text goes through the scanner's own file path (scan_path on a scratch directory: reading, lexer by file
+    name, lex, scan_file) whenever a file holding it reads back unchanged; otherwise lex + scan_file on the string."""
+    if via_file and file_safe(text):
+        from codelimit.common.Scanner import scan_path
+
+        d = _scratch() / lang.replace("+", "p").replace("#", "s")
+        d.mkdir(exist_ok=True)
+        name = LANGS[lang]["file"]
+        with open(d / name, "w", newline="") as f:
+            f.write(text)
+        cb = scan_path(d)
+        if list(cb.files) != [name]:
+            raise RuntimeError(f"scan_path did not analyse {name}: {list(cb.files)}")
+        if cb.files[name].language != lang:
+            raise RuntimeError(f"{name} analysed as {cb.files[name].language}, not {lang}")
+        ms = cb.files[name].measurements()
+    else:
+        from codelimit.common.lexer_utils import lex
+        from codelimit.common.Scanner import scan_file
+
+        ms = scan_file(lex(lexer_for(lang), text, False), language(lang))
     return [(m.unit_name, m.start.line, m.start.column, m.end.line, m.end.column, m.value) for m in ms]
